@@ -104,6 +104,14 @@ func c18specs(u alias.Unit, master any) []alias.Spec {
 				v0, err := db.AwaitAttestation(ctx, slot, 0) // the committee-index-0 alias of the same data
 				w.Outcome("AwaitAttestation(0)", err)
 				w.Result("reader-commidx0", v0)
+				// the same data is stored once more (every node does so after consensus), overwritten by its owner, read again
+				set2 := core.UnsignedDataSet{c18pk: alias.DeepCopy(master.(core.AttestationData))}
+				w.Input("re-stored-input", set2)
+				w.Outcome("Store(again)", db.Store(ctx, core.NewAttesterDuty(slot), set2))
+				w.MutateInputs()
+				v3, err := db.AwaitAttestation(ctx, slot, commIdx)
+				w.Outcome("AwaitAttestation(after re-store)", err)
+				w.Result("reader3", v3)
 				w.Observe("db.attDuties(after)", db.attDuties)
 			}
 		}
@@ -142,6 +150,13 @@ func c18specs(u alias.Unit, master any) []alias.Spec {
 				w.Outcome("AwaitProposal", err)
 				w.Result("reader"+string(rune('0'+i)), v)
 			}
+			set2 := core.UnsignedDataSet{c18pk: alias.DeepCopy(master.(core.VersionedProposal))}
+			w.Input("re-stored-input", set2)
+			w.Outcome("Store(again)", db.Store(ctx, core.NewProposerDuty(slot), set2))
+			w.MutateInputs()
+			v3, err := db.AwaitProposal(ctx, slot)
+			w.Outcome("AwaitProposal(after re-store)", err)
+			w.Result("reader3", v3)
 			w.Observe("db.proDuties(after)", db.proDuties)
 		}}}
 	case "VersionedAggregatedAttestation":
@@ -185,6 +200,14 @@ func c18specs(u alias.Unit, master any) []alias.Spec {
 				w.Outcome("AwaitAggAttestation", err)
 				w.Result("reader"+string(rune('0'+i)), v)
 			}
+			set2 := core.UnsignedDataSet{c18pk: alias.DeepCopy(master.(core.VersionedAggregatedAttestation))} // replaces the stored value
+			w.Input("re-stored-input", set2)
+			w.Outcome("Store(again)", db.Store(ctx, core.NewAggregatorDuty(slot), set2))
+			w.MutateInputs()
+			w.Held("db.aggDuties(re-stored value)", db.aggDuties[aggKey{Slot: slot, Root: root, CommitteeIndex: commIdx}])
+			v3, err := db.AwaitAggAttestation(ctx, slot, root, commIdx)
+			w.Outcome("AwaitAggAttestation(after re-store)", err)
+			w.Result("reader3", v3)
 			w.Observe("db.aggDuties(after)", db.aggDuties)
 		}}}
 	case "SyncContribution", "SyncContributions":
@@ -220,6 +243,13 @@ func c18specs(u alias.Unit, master any) []alias.Spec {
 				w.Outcome("AwaitSyncContribution", err)
 				w.Result("reader"+string(rune('0'+i)), v)
 			}
+			set2 := core.UnsignedDataSet{c18pk: alias.DeepCopy(master.(core.UnsignedData))}
+			w.Input("re-stored-input", set2)
+			w.Outcome("Store(again)", db.Store(ctx, core.NewSyncContributionDuty(slot), set2))
+			w.MutateInputs()
+			v3, err := db.AwaitSyncContribution(ctx, slot, sub, root)
+			w.Outcome("AwaitSyncContribution(after re-store)", err)
+			w.Result("reader3", v3)
 			w.Observe("db.contribDuties(after)", db.contribDuties)
 		}}}
 	}
